@@ -35,6 +35,7 @@ type Cell struct {
 	root   *Cell // enclosing allocation (for pool release / race reports)
 	// allocation-level metadata (valid on root)
 	released bool
+	isGlobal bool // package-level variable of a kit package
 	ghost    bool // allocated by harness code: not race-checked
 	// race detection (per location)
 	lastW *access
@@ -382,6 +383,9 @@ func (m *Machine) loadCell(c *Cell, idx *Term) Value {
 func (m *Machine) store(p Ptr, v Value, site string) {
 	if p.c == nil {
 		panic(&goPanic{kind: "nil dereference", site: site})
+	}
+	if p.c.root != nil && p.c.root.isGlobal && m.initDepth == 0 {
+		m.globalWrites++
 	}
 	m.onAccess(p.c, true, site)
 	m.storeCell(p.c, p.idx, v)
